@@ -141,6 +141,10 @@ def run(ctx):
     skip = {c[0][0] for c in crashes if c[0]}
     bad = [i for i in vlib.diff_results({k: v for k, v in mres.items() if k != "k0"},
                                         {k: v for k, v in ires.items() if k != "k0"}) if i not in skip and i in ires]
+    nomodel = [x[0] for x in cmpcases if x[0] not in mres]
+    if nomodel:
+        ctx.broken.append("runner: the model driver produced no result for %d cases (first %s)" % (len(nomodel), nomodel[0]))
+    bad = [i for i in bad if i in mres]
     if len(ires) + len(skip) < len(cases):
         ctx.broken.append("runner: %d cases were not executed by the harness (too many crashes)" % (len(cases) - len(ires) - len(skip)))
     ctx.cov["evaluations"] = len(cmpcases)
